@@ -1,6 +1,7 @@
 package main
 
 import (
+	"regexp"
 	"strings"
 	"bytes"
 	"os/exec"
@@ -279,6 +280,68 @@ func genMonitor(out *Output, rng *Rng) {
 		checkResultSet(out, "mutant of "+cc.File+" ("+what+")", rs, cn, metas)
 	}
 	out.Stats["mutants_linted"] = mutLinted
+	// what Filter hands back together with an error (unknown name, pattern next to names, unparsable pattern, unknown
+	// source): a caller that logs the error and carries on passes that value to Lint*Ex - the documented behaviour for
+	// "no registry" is the global one, so the run must come back complete, for every object kind
+	{
+		gcn, gln, gon, gmetas := kindNames(g)
+		someName := ""
+		if len(gcn) > 0 {
+			someName = gcn[0]
+		}
+		rejected := []lint.FilterOptions{
+			{IncludeNames: []string{"e_no_such_lint_anywhere"}}, {ExcludeNames: []string{"e_no_such_lint_anywhere"}},
+			{IncludeNames: []string{someName, "e_no_such_lint_anywhere"}}, {NameFilter: regexp.MustCompile("^e_"), IncludeNames: []string{someName}},
+			{NameFilter: regexp.MustCompile("^e_"), ExcludeNames: []string{someName}},
+		}
+		nRej := 0
+		for oi, o := range rejected {
+			fr, err := g.Filter(o)
+			if err == nil {
+				continue
+			}
+			nRej++
+			what := fmt.Sprintf("the value Filter returned together with the error %q (options #%d)", err.Error(), oi)
+			var pv interface{}
+			var rs *zlint.ResultSet
+			if len(corpus.Certs) > 0 {
+				func() {
+					defer func() { pv = recover() }()
+					rs = zlint.LintCertificateEx(corpus.Certs[0].Cert, fr)
+				}()
+				if pv != nil {
+					out.Violate("C01|panic-escaped:rejected-filter:cert", fmt.Sprintf("LintCertificateEx panicked when given %s: %v", what, pv), map[string]interface{}{"file": corpus.Certs[0].File, "options": fmt.Sprint(o)}, "the complete run of the global registry", "panic")
+				} else {
+					checkResultSet(out, "cert "+corpus.Certs[0].File+" with "+what, rs, gcn, gmetas)
+				}
+			}
+			if len(corpus.CRLs) > 0 {
+				pv = nil
+				func() {
+					defer func() { pv = recover() }()
+					rs = zlint.LintRevocationListEx(corpus.CRLs[0].CRL, fr)
+				}()
+				if pv != nil {
+					out.Violate("C01|panic-escaped:rejected-filter:crl", fmt.Sprintf("LintRevocationListEx panicked when given %s: %v", what, pv), map[string]interface{}{"file": corpus.CRLs[0].File, "options": fmt.Sprint(o)}, "the complete run of the global registry", "panic")
+				} else {
+					checkResultSet(out, "crl "+corpus.CRLs[0].File+" with "+what, rs, gln, gmetas)
+				}
+			}
+			if len(corpus.OCSPs) > 0 {
+				pv = nil
+				func() {
+					defer func() { pv = recover() }()
+					rs = zlint.LintOcspResponseEx(corpus.OCSPs[0].Resp, fr)
+				}()
+				if pv != nil {
+					out.Violate("C01|panic-escaped:rejected-filter:ocsp", fmt.Sprintf("LintOcspResponseEx panicked when given %s: %v", what, pv), map[string]interface{}{"file": corpus.OCSPs[0].File, "options": fmt.Sprint(o)}, "the complete run of the global registry", "panic")
+				} else {
+					checkResultSet(out, "ocsp "+corpus.OCSPs[0].File+" with "+what, rs, gon, gmetas)
+				}
+			}
+		}
+		out.Stats["rejected_filter_values_linted"] = nRej
+	}
 	// nil inputs
 	if zlint.LintCertificateEx(nil, g) != nil || zlint.LintRevocationListEx(nil, g) != nil || zlint.LintOcspResponseEx(nil, g) != nil {
 		out.Violate("C01|nil-input", "nil object did not yield a nil result set", nil, nil, nil)
